@@ -6,7 +6,7 @@ func init() {
 	fw.Register(&fw.Prop{
 		ID:          "C07",
 		Level:       "exploration",
-		Rule:        "sequential part: for every command, boundary-argument vectors (indices/counts/limits over {0,1,-1,2,3,4,-3,-4,2^63-1,-2^63}, keys of every data type and a missing key, score bounds incl. infinities and exclusive forms, LIMIT offset/count over {-1,0,1,2,5}^2 and, for every BYSCORE form (ZRANGEBYSCORE, ZREVRANGEBYSCORE, ZRANGE BYSCORE [REV]), over the whole integer boundary pool squared, option tails) against the example store pre-populated with 0, 1 and 3 elements per type and against the recording double; 20 non-command frames (empty array, null/nested/integer command names, null arguments, null array); the whole request catalogue; every disconnect offset (EOF and reset) of the representative requests; every single-byte deletion/substitution (from the structural alphabet everywhere, by every byte value at the first 12 and last 4 positions; thorough everywhere) and boundary-number edit of 18 valid base streams. Oracle: no panic escapes the connection loop (in production it would end the process), no loop exceeds its iteration budget, replies are well-formed, the connection is closed at end of stream and a later connection's PING is answered. TLS offenders whose handshake cannot succeed (junk, plain text, a client that rejects the server certificate, abort after ClientHello) must be disconnected while the witness, a later plain client and a later valid TLS client are served; the same for clients without certificate or with the wrong name against a server given a tls.Config with ClientAuth RequestClientCert / RequireAnyClientCert / VerifyClientCertIfGiven plus a common-name rule (their handshake completes; their command must not be executed). The interleaving part (offender x witness connection under all schedules <= 2 preemptions) is reported under the same property by the SCHED explorer.",
+		Rule:        "sequential part: for every command, boundary-argument vectors (indices/counts/limits over {0,1,-1,2,3,4,-3,-4,2^63-1,-2^63}, keys of every data type and a missing key, score bounds incl. infinities and exclusive forms, LIMIT offset/count over {-1,0,1,2,5}^2 and, for every BYSCORE form (ZRANGEBYSCORE, ZREVRANGEBYSCORE, ZRANGE BYSCORE [REV]), over the whole integer boundary pool squared, option tails) against the example store pre-populated with 0, 1 and 3 elements per type and against the recording double; 20 non-command frames (empty array, null/nested/integer command names, null arguments, null array); the whole request catalogue; every disconnect offset (EOF and reset) of the representative requests; every single-byte deletion/substitution (from the structural alphabet everywhere, by every byte value at the first 12 and last 4 positions; thorough everywhere) and boundary-number edit of 18 valid base streams. Oracle: no panic escapes the connection loop (in production it would end the process), no loop exceeds its iteration budget, replies are well-formed, the connection is closed at end of stream and a later connection's PING is answered. TLS offenders whose handshake cannot succeed (junk, plain text, a client that rejects the server certificate, abort after ClientHello) must be disconnected while the witness, a later plain client and a later valid TLS client are served; the same for clients without certificate or with the wrong name against a server given a tls.Config with ClientAuth RequestClientCert / RequireAnyClientCert / VerifyClientCertIfGiven plus a common-name rule (their handshake completes; their command must not be executed). Two offenders writing several configuration parameters while the witness and the late client connect run under the happens-before oracle: a data race on the contents of a map is the verdict concurrent-map-access (process abort). The interleaving part (offender x witness connection under all schedules <= 2 preemptions) is reported under the same property by the SCHED explorer.",
 		Assumptions: []string{"declared sizes above 2^29 are left to C06's sacrificial subprocess"},
 		Run:         c07RunAll,
 		Replay:      c07ReplayAll,
